@@ -1,14 +1,15 @@
-DECLARE FUNCTION Fib! (N!)
-PRINT "Enter the number of fibonacci to calculate"
-INPUT N
-FOR I = 0 TO N
-    PRINT "Fibonacci of", I, "is", Fib(I)
-NEXT
 
-FUNCTION Fib (N)
-    IF N <= 1 THEN
-        Fib = N
-    ELSE
-        Fib = Fib(N - 1) + Fib(N - 2)
-    END IF
-END FUNCTION
+        ON ERROR GOTO ErrTrap
+        OPEN "whatever.txt" FOR INPUT AS #1
+        CLOSE
+        END
+
+        ErrTrap:
+            SELECT CASE ERR
+            CASE 53
+                PRINT "File not found"
+            CASE ELSE
+                PRINT "oops"
+            END SELECT
+            RESUME NEXT
+        
